@@ -37,6 +37,10 @@ type pairResult struct {
 
 func genPair(r *vc.Rand) *PairScn {
 	sc := &PairScn{RegBefore: [2]bool{r.Bool(), r.Bool()}, Simultaneous: r.Chance(1, 3), OneSided: r.Chance(1, 6)}
+	if r.Chance(1, 4) {
+		// forced simultaneous dials: both sides register after Start at the same instant, both dial at once
+		sc.RegBefore, sc.Simultaneous, sc.OneSided = [2]bool{false, false}, true, false
+	}
 	n := r.Intn(5)
 	for i := 0; i < n; i++ {
 		sc.Disturbs = append(sc.Disturbs, Disturb{
